@@ -3,6 +3,7 @@
   `Gen.callSites`, `Gen.pipelines`, `Gen.handlers`, `Gen.sessionUses`, `Gen.dryRunAssigns`.
 -/
 import GormModel.Model.Pipeline
+import GormModel.Lemmas.DryRun
 import GormModel.Gen.CallSites
 import GormModel.Gen.Pipelines
 import GormModel.Gen.Sessions
@@ -149,5 +150,160 @@ example : possibleCalls handlers
     { dryRun := false, skipDefaultTx := false, err := false, skipHooks := false, hasSchema := true }
     (fun _ => true) ["driver"] ≠ [] := by
   decide
+
+/-! ## The build part / execute part split (regenerated `Gen.dryFns`, `Gen.dryReads`, `Gen.txSites`) -/
+
+set_option maxRecDepth 8192 in
+/-- (a) a DryRun test may only guard driver calls and what consumes their results: in every function
+    reachable from a registered callback, every call dominated by a DryRun test is a driver call or a
+    result consumer (never a hook call, association saving, clause building, ConvertTo*, Build, …) -/
+theorem C19_dry_guard_scope : TableScoped dryFns := by
+  unfold TableScoped; decide
+
+set_option maxRecDepth 8192 in
+/-- every driver call of those functions is dominated by `!db.DryRun` -/
+theorem C19_dry_driver_guarded : TableGuarded dryFns := by
+  unfold TableGuarded; decide
+
+set_option maxRecDepth 8192 in
+/-- transaction control inside the callbacks is dominated by `!db.Config.SkipDefaultTransaction` -/
+theorem C19_dry_tx_guarded : TableClsGuarded dryFns .tx "!db.Config.SkipDefaultTransaction" := by
+  unfold TableClsGuarded; decide
+
+set_option maxRecDepth 8192 in
+/-- every syntactic read of `.DryRun` is one the dominance rule sees through (an `if` condition, a
+    boolean alias used in `if` conditions only, or the left side of an assignment); DryRun is spelled
+    `db.DryRun` in every condition of the callback package; inside package callbacks it is read only
+    by functions of the table that own a `!db.DryRun`-guarded driver call -/
+theorem C19_dry_reads_accounted :
+    (∀ r ∈ dryReads, r.how = "if" ∨ r.how = "alias" ∨ r.how = "assign") ∧
+    dryAtomsOther = [] ∧
+    (∀ r ∈ dryReads, r.pkg = "callbacks" →
+      ∃ f ∈ dryFns, f.name = r.fn ∧ ∃ c ∈ f.calls, c.cls = .driver ∧ "!db.DryRun" ∈ c.guards) := by
+  decide
+
+set_option maxRecDepth 8192 in
+/-- … and the non-call effects that depend on a DryRun test (assignments, inc/dec, break/continue/goto, send, go)
+    are only: the result bookkeeping after the driver call (RowsAffected, Dest, the `rows` result and its error,
+    RETURNING scan mode, back-filling of the inserted key incl. its loops) -/
+theorem C19_dry_effects_scope :
+    ∀ e ∈ dryEffects,
+      e ∈ [("Create", "assign", "mode"), ("Create", "assign", "db.RowsAffected"), ("Create", "assign", "pkField"),
+           ("Create", "assign", "pkFieldName"), ("Create", "assign", "values[pkFieldName]"),
+           ("Create", "assign", "(*values)[pkFieldName]"), ("Create", "assign", "mapValues"),
+           ("Create", "assign", "insertID"), ("Create", "assign", "mapValue[pkFieldName]"),
+           ("Create", "incdec", "i"), ("Create", "branch", "break"),
+           ("Delete", "assign", "db.RowsAffected"), ("RawExec", "assign", "db.RowsAffected"),
+           ("RowQuery", "assign", "db.Statement.Dest"), ("RowQuery", "assign", "db.Error"),
+           ("RowQuery", "assign", "db.RowsAffected"),
+           ("Update", "assign", "db.Statement.Dest"), ("Update", "assign", "db.RowsAffected")] := by
+  decide
+
+set_option maxRecDepth 8192 in
+/-- outside package callbacks a DryRun test guards only: Execute's SQL/Vars reset, Save's fallback
+    INSERT (a second statement, decided on the first one's result), Row's log line, and the
+    migrator's introspection handle -/
+theorem C19_root_dry_guard_scope :
+    ∀ x ∈ dryRootGuarded,
+      x ∈ [("processor.Execute", "Reset", "stmt.SQL"),
+           ("DB.Save", "Create", "tx.Session(&Session{SkipHooks: true}).Clauses(clause.OnConflict{UpdateAll: true})"),
+           ("DB.Save", "Clauses", "tx.Session(&Session{SkipHooks: true})"),
+           ("DB.Save", "Session", "tx"),
+           ("DB.Row", "Error", "db.Logger"),
+           ("DB.Row", "Error", "ErrDryRunModeUnsupported"),
+           ("Migrator.GetQueryAndExecTx", "Session", "m.DB")] := by
+  decide
+
+set_option maxRecDepth 8192 in
+/-- (b) every `Transaction(` / `Begin(` / `BeginTx(` call outside the explicit transaction API itself
+    (`DB.Transaction`, `DB.Begin`, the prepared-statement pool's `BeginTx` wrapper) is dominated by a
+    test of SkipDefaultTransaction on the handle it is called on -/
+theorem C19_tx_sites_honour_skip :
+    ∀ s ∈ txSites, s.method ∈ ["Transaction", "Begin", "BeginTx"] →
+      (s.fn ∈ ["DB.Transaction", "DB.Begin", "PreparedStmtDB.BeginTx"] ∨
+       ("!" ++ s.recv ++ ".SkipDefaultTransaction") ∈ s.guards ∨
+       ("!" ++ s.recv ++ ".Config.SkipDefaultTransaction") ∈ s.guards) := by
+  decide
+
+set_option maxRecDepth 8192 in
+/-- (c) RowQuery: BOTH the Rows branch (QueryContext) and the Row branch (QueryRowContext) exist and
+    are dominated by the DryRun test -/
+theorem C19_rowquery_both_branches :
+    (∀ m ∈ ["QueryContext", "QueryRowContext"],
+      ∃ s ∈ callSites, s.fn = "RowQuery" ∧ s.method = m ∧ "!db.DryRun" ∈ s.guards) ∧
+    (∀ s ∈ callSites, s.fn = "RowQuery" → "!db.DryRun" ∈ s.guards) := by
+  decide
+
+/-- MAIN (model of `processor.Execute`): for every pipeline, every state, every valuation of the other
+    conditions and every expansion depth: DryRun ⇒ the build part's output equals the real run's build
+    part output, no driver call is issued, and SQL/Vars are kept -/
+theorem C19_model_dry_equals_real (st : RunSt) (env : String → Bool) (fuel : Nat) (hd : st.dryRun = true) :
+    ∀ p ∈ pipelines,
+      (execute dryFns p.2 st env fuel).built = (execute dryFns p.2 st.real env fuel).built ∧
+      (execute dryFns p.2 st env fuel).sent = [] ∧
+      (execute dryFns p.2 st env fuel).keepsSQL = true := by
+  intro p _
+  have h := execute_dry_equals_real dryFns C19_dry_guard_scope C19_dry_driver_guarded p.2 st env fuel hd
+  refine ⟨h.1, h.2, ?_⟩
+  simp [execute, hd, C19_kept]
+
+/-- … and under ToSQL's flags (DryRun + SkipDefaultTransaction) no transaction call either -/
+theorem C19_model_tosql_silent (st : RunSt) (env : String → Bool) (fuel : Nat)
+    (hd : st.dryRun = true) (hs : st.skipDefaultTx = true) :
+    ∀ p ∈ pipelines,
+      (execute dryFns p.2 st env fuel).sent = [] ∧ (execute dryFns p.2 st env fuel).txs = [] := by
+  intro p hp
+  refine ⟨(C19_model_dry_equals_real st env fuel hd p hp).2.1, ?_⟩
+  unfold execute
+  simp only
+  exact pipelineTrace_cls_nil dryFns .tx "!db.Config.SkipDefaultTransaction" C19_dry_tx_guarded p.2 st env
+    (atomVal_skipTx st env hs) fuel
+
+/-- non-vacuity: the real create pipeline has a non-empty build part and does send -/
+example :
+    (execute dryFns ((pipelines.find? (fun p => p.1 = "create")).get!.2)
+      { dryRun := false, skipDefaultTx := false, err := false, skipHooks := false, hasSchema := true }
+      (fun _ => true) 4).built ≠ [] ∧
+    (execute dryFns ((pipelines.find? (fun p => p.1 = "create")).get!.2)
+      { dryRun := false, skipDefaultTx := false, err := false, skipHooks := false, hasSchema := true }
+      (fun _ => true) 4).sent ≠ [] := by
+  decide
+
+/-! ## Findings on the unchanged tree -/
+
+def tosqlSt : RunSt := { dryRun := true, skipDefaultTx := true, err := false, skipHooks := false, hasSchema := true }
+
+/-- F25: an explicit user transaction on the ToSQL handle reaches the driver (`DB.Begin`'s BeginTx call
+    site is dominated by neither DryRun nor SkipDefaultTransaction) -/
+theorem C19_tosql_explicit_tx_counterexample :
+    finisherTx dryFns { name := "Transaction{Create}", pipeline := "create", batched := false, explicitTx := true }
+      tosqlSt (fun _ => true) 4 ≠ [] := by
+  decide
+
+/-- … and without an explicit transaction a ToSQL finisher makes no transaction call at all -/
+theorem C19_tosql_silent_partial (f : FinSpec) (st : RunSt) (env : String → Bool) (fuel : Nat)
+    (hx : f.explicitTx = false) (hd : st.dryRun = true) (hs : st.skipDefaultTx = true) :
+    finisherTx dryFns f st env fuel = [] := by
+  unfold finisherTx
+  simp only [hx, Bool.false_and, Bool.false_eq_true, if_false, List.nil_append]
+  cases hf : pipelines.find? (fun p => p.1 = f.pipeline) with
+  | none => rfl
+  | some p => exact (C19_model_tosql_silent st env fuel hd hs p (List.mem_of_find?_eq_some hf)).2
+
+/-- F26: a batched finisher exposes nothing although its real run builds (and sends) statements -/
+theorem C19_batched_exposes_nothing_counterexample :
+    exposed dryFns { name := "CreateInBatches", pipeline := "create", batched := true, explicitTx := false }
+      tosqlSt (fun _ => true) 4 = [] ∧
+    (execute dryFns ((pipelines.find? (fun p => p.1 = "create")).get!.2) tosqlSt.real (fun _ => true) 4).built ≠ [] := by
+  decide
+
+/-- … every other finisher exposes exactly the build part of the real run of its pipeline -/
+theorem C19_exposed_is_built_partial (f : FinSpec) (p : String × List CbReg) (st : RunSt) (env : String → Bool)
+    (fuel : Nat) (hb : f.batched = false) (hp : pipelines.find? (fun q => q.1 = f.pipeline) = some p)
+    (hd : st.dryRun = true) :
+    exposed dryFns f st env fuel = (execute dryFns p.2 st.real env fuel).built := by
+  unfold exposed
+  simp only [hb, Bool.false_eq_true, if_false, hp]
+  exact (C19_model_dry_equals_real st env fuel hd p (List.mem_of_find?_eq_some hp)).1
 
 end Gorm
